@@ -76,6 +76,36 @@ fams = {
  'ab': [('ab_a', (x,)), ('ab_b', (x,)), ('ab_c', (x,))],
  'tk': [('tk_a', (M, 1)), ('tk_b', (M, 1))],
 }
+class _O:
+    a = 5
+class _P:
+    pass
+Params = w.get("jinns.parameters._params", "Params")
+pp = Params.make(nn_params=Sym('theta'), eq_params={'nu': K('nu')})
+L = [K('a'), K('b'), K('c')]
+fams.update({
+ 'lp': [('lp_a', (L,)), ('lp_b', (L,)), ('lp_c', (L,)), ('lp_d', (L,))],
+ 'er': [(nm, (x, fl)) for fl in (None,) for nm in ('er_a', 'er_b', 'er_c', 'er_d')],
+ 'er2': [(nm, (x, K('f'))) for nm in ('er_a', 'er_b', 'er_c', 'er_d')],
+ 'dg': [('dg_a', (d,)), ('dg_b', (d,)), ('dg_c', (d,))],
+ 'dg0': [('dg_a', ({},)), ('dg_b', ({},)), ('dg_c', ({},))],
+ 'st': [('st_a', (L,)), ('st_b', (L,)), ('st_c', (L,))],
+ 'kw': [('kw_a', (fxy, x, y)), ('kw_b', (fxy, x, y)), ('kw_c', (fxy, x, y))],
+ 'cl': [('cl_a', (L,)), ('cl_b', (L,)), ('cl_c', (L,))],
+ 'ag': [('ag_a', (d,)), ('ag_b', (d,)), ('ag_c', (d,))],
+ 'an': [('an_a', ([1, None],)), ('an_b', ([1, None],)), ('an_c', ([1, None],))],
+ 'wl': [('wl_a', (d,)), ('wl_b', (d,))],
+ 'ii': [('ii_a', (1.5,)), ('ii_b', (1.5,)), ('ii_c', (1.5,))],
+ 'iiK': [('ii_a', (K('w'),)), ('ii_b', (K('w'),)), ('ii_c', (K('w'),))],
+ 'so': [('so_a', (d,)), ('so_b', (d,)), ('so_c', (d,))],
+ 'ga': [('ga_a', (pp,)), ('ga_b', (pp,))],
+ 'tp': [('tp_a', (x, y)), ('tp_b', (x, y)), ('tp_c', (x, y))],
+ 'mx': [('mx_a', (3, 5)), ('mx_b', (3, 5))],
+ 'nm': [('nm_a', (L,)), ('nm_b', (L,)), ('nm_c', (L,))],
+ 'zp': [('zp_a', (['a', 'b'], L[:2])), ('zp_b', (['a', 'b'], L[:2])), ('zp_c', (['a', 'b'], L[:2]))],
+ 'ta': [('ta_a', (pp, Sym('v'))), ('ta_b', (pp, Sym('v'))), ('ta_c', (pp, Sym('v')))],
+ 'msk': [('msk_a', (Sym('p'),)), ('msk_b', (Sym('p'),)), ('msk_c', (Sym('p'),)), ('msk_d', (Sym('p'),))],
+})
 bad = 0
 for fam, members in fams.items():
     vals = []
